@@ -524,8 +524,10 @@ impl ArchiveFooter {
         src.seek(SeekFrom::Start(start))?;
 
         // Read files_info
+        // Nothing in the footer can be bigger than the footer itself: this
+        // bounds the allocations made for length-prefixed items
         let files_info: HashMap<String, FileInfo> = match bincode::options()
-            .with_limit(BINCODE_MAX_DESERIALIZE)
+            .with_limit(std::cmp::min(len, BINCODE_MAX_DESERIALIZE))
             .with_fixint_encoding()
             .deserialize_from(&mut src.take(len))
         {
